@@ -17,6 +17,7 @@ import (
 	"pgregory.net/rapid"
 
 	"verifharness/evid"
+	"verifharness/memconn"
 	"verifharness/sim"
 )
 
@@ -60,6 +61,11 @@ func isClientClosedErr(err error) bool {
 func c19Run(c c19Case) Outcome {
 	var o Outcome
 	res := inBubble(theT, func() { o = c19RunInBubble(c) })
+	if c.Point == "stalled" && res.Frozen != "" && strings.Contains(res.Frozen, "tsuna/gohbase") {
+		// at this point every connection has exactly one writer, blocked in conn.Write, which returns as soon as the
+		// connection is closed: a goroutine of the client parked on a mutex for 40 s of real time waits for that writer
+		return viol("close-blocked@stalled", "Close ran while the regionservers were not reading (a writer blocked in Write on each connection); a goroutine of the client is parked on a lock that only the blocked writer can release, and nothing interrupts the write:\n%s", res.Frozen)
+	}
 	if o, stuck := stuckVerdict(res); stuck {
 		return o
 	}
@@ -91,6 +97,15 @@ func c19RunInBubble(c c19Case) (out Outcome) {
 		// to have a connection established for it) is parked at the client's own debug message
 		park = newParkingHandler("looked up a region")
 		copts = append(copts, gohbase.Logger(slog.New(park)))
+	}
+	if c.Point == "stalled" {
+		// small pipes to the regionservers: a server that stops reading blocks the client's writer at once
+		cl.ConnOptions = func(addr string, k int) memconn.Options {
+			if addr != "rs1:16020" {
+				return memconn.Options{Cap: 16}
+			}
+			return memconn.Options{}
+		}
 	}
 	client := newSimClient(cl, copts...)
 	stopped := false
@@ -186,6 +201,11 @@ func c19RunInBubble(c c19Case) (out Outcome) {
 			cl.ZKErrs = append(cl.ZKErrs, errors.New("zk: could not connect to a server"))
 		}
 		cl.Unlock()
+	case "stalled":
+		// the regionservers stop reading (hung processes): the batching goroutine of each connection blocks in
+		// Write with the callers' requests; nothing but closing the connection ends such a write
+		cl.SetServer("rs2:16020", func(s *sim.ServerState) { s.Stall = true })
+		cl.SetServer("rs3:16020", func(s *sim.ServerState) { s.Stall = true })
 	case "multistop":
 		// every region answers the next multi-request that addresses it with a region-level
 		// RegionServerStoppedException (the connection stays up): the client gives that connection up,
@@ -255,6 +275,8 @@ func c19RunInBubble(c c19Case) (out Outcome) {
 		time.Sleep(60 * time.Millisecond)
 	case "multistop":
 		time.Sleep(time.Second)
+	case "stalled":
+		time.Sleep(time.Duration(c.FlushMS+1) * time.Millisecond)
 	}
 	if c.Point == "dial" {
 		// While a dial is held inside the region client's dial-once section, other
@@ -327,6 +349,7 @@ func c19RunInBubble(c c19Case) (out Outcome) {
 		r.Hold = false
 	}
 	for _, s := range cl.Servers {
+		s.Stall = false
 		s.DialHold = false
 	}
 	cl.Unlock()
@@ -485,9 +508,12 @@ func c19RunInBubble(c c19Case) (out Outcome) {
 func c19Gen(t *rapid.T) c19Case {
 	var c c19Case
 	c.Point = rapid.SampledFrom([]string{"idle", "inflight", "zk", "meta", "dial", "dial", "probe", "backoff", "dialrefused", "zkerror", "multistop", "lookedup"}).Draw(t, "point")
+	if rapid.IntRange(0, 11).Draw(t, "stalledpoint") == 0 {
+		c.Point = "stalled"
+	}
 	c.Warm = rapid.Bool().Draw(t, "warm")
 	c.Log = rapid.SampledFrom([]string{"", "", "", "json", "text"}).Draw(t, "log")
-	if c.Point == "idle" || c.Point == "multistop" {
+	if c.Point == "idle" || c.Point == "multistop" || c.Point == "stalled" {
 		c.Warm = true
 	}
 	if c.Point == "lookedup" {
@@ -496,10 +522,15 @@ func c19Gen(t *rapid.T) c19Case {
 	}
 	c.Queue = rapid.SampledFrom([]int{1, 2, 100}).Draw(t, "queue")
 	c.FlushMS = rapid.SampledFrom([]int{0, 1, 20}).Draw(t, "flush")
-	c.PreSplit = c.Warm && rapid.Bool().Draw(t, "presplit")
+	if c.Point == "stalled" {
+		// (one writer per connection - the batching goroutine: a second one would queue on the write lock behind
+		// the blocked one, which is not a durable block and would freeze the bubble's clock)
+		c.Queue = rapid.SampledFrom([]int{2, 5, 100}).Draw(t, "queue2")
+	}
+	c.PreSplit = c.Warm && c.Point != "stalled" && rapid.Bool().Draw(t, "presplit")
 	c.Twice = rapid.SampledFrom([]string{"", "", "seq", "concurrent"}).Draw(t, "twice")
 	c.ReleaseAfterMS = rapid.SampledFrom([]int{0, 0, 1, 10, 500}).Draw(t, "release")
-	if c.Warm && rapid.IntRange(0, 2).Draw(t, "scan") == 0 {
+	if c.Warm && c.Point != "stalled" && rapid.IntRange(0, 2).Draw(t, "scan") == 0 {
 		c.Scan = true
 		c.ScanRead = rapid.IntRange(1, 3).Draw(t, "scanread")
 		c.ScanRenewMS = rapid.SampledFrom([]int{0, 5, 1000, 20000}).Draw(t, "scanrenew")
@@ -508,6 +539,9 @@ func c19Gen(t *rapid.T) c19Case {
 	n := 0
 	l := layoutSpec{Table: "t", Bounds: []evid.B{evid.B("m")}}
 	kinds := []string{"get", "get", "put", "app", "inc"}
+	if c.Point == "stalled" {
+		kinds = []string{"get", "put", "put"}
+	}
 	if c.Point != "idle" {
 		nc := rapid.IntRange(1, 6).Draw(t, "ncallers")
 		for i := 0; i < nc; i++ {
@@ -534,7 +568,7 @@ func TestC19_Close(t *testing.T) {
 			"servers are brought into a chosen state - idle, responses held (in flight), ZooKeeper lookup held, meta scan "+
 			"held, dialer entered and held (before/during dial), region probe held, retry back-off, dial refused "+
 			"repeatedly, ZooKeeper answering every lookup with an error (before and after Close), a connection given up because a multi-response "+
-			"carried a server-stopped exception (and replaced by another one), a region just looked up in hbase:meta and not yet being established (the looking-up goroutine parked "+
+			"carried a server-stopped exception (and replaced by another one), regionservers that stopped reading so that the connections' writers are blocked in Write with the callers' requests, a region just looked up in hbase:meta and not yet being established (the looking-up goroutine parked "+
 			"at the client's own debug message through a harness-supplied logger) - with or without previously established connections, optionally with a scanner left open mid-region "+
 			"(with or without a lease renewer); then Close runs (once, twice, or twice "+
 			"concurrently) and 0/1/10/500 virtual ms later the awaited event happens (the dial completes, ZooKeeper "+
